@@ -108,6 +108,29 @@ CLAIMS.update({
    technique="Lean 4 proof (induction over lines / write operations; canonicity of strict base64) + exhaustive line-structure correspondence"),
 })
 
+CLAIMS.update({
+ 'C15': dict(level='proof',
+   text="PARTIAL (the OS is modelled only as far as the model's World goes). Lean theorems over a decision-logic model of cmd/age and cmd/age-keygen (flag switch, lexical path cleaning and in-use-file comparison, lazyOpener, order of effects in encrypt/decrypt, errorf→exit 1, keygen O_EXCL|0600), "
+        "∀ args, worlds, crypto oracles: exit0_iff_delivered, header_refusal_no_touch, payload_failure_prefix, output_failure_nonzero, same_file_refused (+ string form), only_output_changes, clean_idempotent, abs_spelling, "
+        "keygen_no_overwrite, keygen_exit0_iff, keygen_mode_0600, version_output_failure_nonzero, segmentation_irrelevant_*. Tie: the REAL binaries rebuilt from /repo/cmd on every run in throw-away directories: flag combinations, sizes 0..2 chunks, "
+        "key types, file/pipe/dev-full/missing-dir/RLIMIT_FSIZE/closing-pipe outputs at byte-exact offsets, damaged inputs, path spellings, pty passphrase flows.",
+   note=COMMON_NOTE + "Cryptography and key-file parsing enter the CLI model as an oracle (outcome of age.Decrypt, produced ciphertext); symbolic/hard links, permissions, signals, close(2) failures and a disk filling between write and close are outside the model (DESIGN.md §8 C15). Models the tree with fix: commits F5, F6, F11.",
+   technique="Lean 4 proof over a CLI decision-logic model + differential runs of the real binaries"),
+ 'C18': dict(level='proof',
+   text="Lean theorems over a model of bufio.Scanner line splitting + the four key-file loops (library identities/recipients, CLI identities, CLI recipients file with its coded skip branch), ∀ byte strings: keyfile_exact, keyfile_exact_count, "
+        "keyfile_first_error (1-based number of the FIRST offending line), keyfile_no_skip, cli_keyfile_exact / _first_error / _no_skip, cli_skipped_sound, cli_ed25519_never_skipped, lib_never_skips, lines_roundtrip_{lf,nofinal,crlf}, scan_token_too_long, "
+        "limit_reader, recipient_error_content_free, identity_error_no_secret_partial. Tie: age.ParseIdentities/ParseRecipients in-process and the CLI variants through the real age binary, files assembled from every line kind at every position.",
+   note=COMMON_NOTE + "The single-line key parsers are a parameter of the file-level model (they are C09's model); what Go's error TEXT embeds cannot be stated in a model whose errors are classes: covered by a code-reading analysis and the harness oracle "
+        "(no 8-character window of a secret key in any error text; no 4-character window of a recipients-file line). Models the tree with fix: commit F9 (amended).",
+   technique="Lean 4 proof (induction over lines) + differential correspondence incl. the real CLI"),
+ 'C19': dict(level='proof',
+   text="Lean theorems over the EncryptedSSHIdentity state machine (cached key; stanza scan; prompt; parse; public-key check; cache), ∀ histories: prompt_iff_match, no_prompt_outcomes, prompt_for_own_file, no_trace_after_failure, "
+        "only_validated_cached, history_independent (any call after any history behaves as on a fresh identity, or — once validated — as the plain identity without prompting), unlocked_agrees_with_fresh, run_append. "
+        "Tie: real agessh.NewEncryptedSSHIdentity with keys from ssh.MarshalPrivateKeyWithPassphrase (ed25519, RSA, legacy PEM), declared key = or ≠ stored key, all call sequences up to length 3 (5 thorough), counting callback.",
+   note=COMMON_NOTE + "The key file is abstract ('opens to key k under passphrase p'); x/crypto's PEM/bcrypt-pbkdf parsing is outside the model. Models the tree with fix: commit F7.",
+   technique="Lean 4 proof (induction over call histories) + exhaustive short-history correspondence"),
+})
+
 def main():
     hook = subprocess.run(['git', '-C', '/repo', 'log', '--format=%h', '--grep=^verifhook', '-n', '5'], capture_output=True, text=True).stdout.split()
     m = {
